@@ -412,6 +412,74 @@ theorem rmAny_formOk (ctx : Spec.X86.Ctx) (rule : Rule) (opcode d r0 : BitVec 32
         rw [← hrb]; simp [fix1, e1, e2]
       exact regOkB_plain k0 _ _ p h (by rw [e])
 
+/-- shape [rm]: one register operand of any kind (incl. AH..BH, SPL..DIL); ModRM.reg = the digit `d` the class hands over (free when the form has none) -/
+theorem rOnly_formOk (ctx : Spec.X86.Ctx) (rule : Rule) (opcode d r0 : BitVec 32) (k0 : RegKind) (f0 : FormOp) (dr : Nat)
+    (hm64 : ctx.mode64 = true) (hmode : (rule.modes &&& 2 != 0) = true) (hopc : opcode &&& 0xF7801C00#32 = 0#32)
+    (hk0 : k0 = .gpb ∨ k0 = .gpbhi ∨ PlainKind k0) (hd : d < 8#32)
+    (h0 : r0 < 16#32) (h0' : k0 = .gpbhi → r0 < 4#32)
+    (R : LegRuleD rule 0 ((opcode >>> 21) &&& 3#32).toNat dr) (hdr : dr < 8 → d.toNat = dr) (A : LegAgree rule opcode)
+    (hr0 : f0.role = .rm)
+    (hal : alignOps rule.oszEff rule.ops [.reg k0 r0.toNat] = some [(f0, some (.reg k0 r0.toNat))])
+    (bytes : List (BitVec 8))
+    (hb : emitX86R opcode (fix1 k0 r0).1 d (fix1 k0 r0).2 0 0 = .ok bytes) :
+    formOk ctx rule [.reg k0 r0.toNat] {} bytes = true := by
+  generalize hopt : (fix1 k0 r0).1 = opt at hb
+  generalize hrb : (fix1 k0 r0).2 = rb at hb
+  have hfacts : opt &&& 0x3FFFFFFF#32 = 0#32 ∧ rb < 16#32 := by
+    rw [← hopt, ← hrb]
+    rcases hk0 with h | h | h
+    · subst h
+      simp only [fix1, fixK, oRex, oInvalidRex, beq_self_eq_true, Bool.true_or, ↓reduceIte, show (RegKind.gpb == RegKind.gpbhi) = false from rfl, Bool.false_eq_true]
+      split <;> refine ⟨?_, ?_⟩ <;> bv_decide
+    · subst h
+      have a := h0' rfl
+      simp only [fix1, fixK, oRex, oInvalidRex, beq_self_eq_true, Bool.or_true, ↓reduceIte]
+      refine ⟨?_, ?_⟩ <;> bv_decide
+    · obtain ⟨n1, n2, -⟩ := h
+      have e1 : (k0 == RegKind.gpb) = false := by simpa using n2
+      have e2 : (k0 == RegKind.gpbhi) = false := by simpa using n1
+      simp only [fix1, e1, e2, Bool.or_self, Bool.false_eq_true, ↓reduceIte]
+      exact ⟨by decide, h0⟩
+  obtain ⟨hoptm, hrb16⟩ := hfacts
+  by_cases hok : (extractRex opcode opt ||| ((d &&& 8#32) >>> 1) ||| ((rb &&& 8#32) >>> 3)) > 0x80#32
+  · rw [emitX86R_invalidRex opcode opt d rb 0 0 hok] at hb
+    cases hb
+  · obtain ⟨bytes', p, hb', hp, P, hR, hB, hi, hrex, hvk⟩ := x86R_parsedO rule opcode opt d rb 0 0 hopc hoptm (by bv_decide) hrb16 hok dr R A
+    rw [hb'] at hb
+    injection hb with hb
+    subst hb
+    refine leg_r_formOkG ctx rule p _ _ _ dr k0 f0 _ (by simpa [hm64] using hmode) R
+      (fun h => by rw [modrmRR_reg d rb hd]; exact hdr h) hr0 ?_ hal (by rw [hm64]; exact hp) P
+    rw [hB]
+    rcases hk0 with h | h | h
+    · subst h
+      have e : rb = r0 := by rw [← hrb]; simp [fix1, fixK]
+      refine regOkB_gpb _ _ p (by rw [e]) ?_
+      intro h4 h8 hnone
+      have hz := (hrex.mp hnone).1
+      have h4' : r0 ≥ 4#32 := by simpa [BitVec.le_def] using h4
+      rw [← hopt] at hz
+      simp only [fix1, fixK, oRex, oInvalidRex, beq_self_eq_true, Bool.true_or, ↓reduceIte, show (RegKind.gpb == RegKind.gpbhi) = false from rfl,
+        Bool.false_eq_true, h4'] at hz
+      bv_decide
+    · subst h
+      have e : rb = r0 + 4#32 := by rw [← hrb]; simp [fix1, fixK]
+      have a := h0' rfl
+      refine regOkB_gpbhi _ _ p ?_ (hrex.mpr ?_)
+      · rw [e]
+        have : r0.toNat < 4 := by simpa [BitVec.lt_def] using a
+        simp [BitVec.toNat_add]; omega
+      · simp only [extractRex] at hok
+        rw [← hopt, ← hrb] at hok ⊢
+        simp only [fix1, fixK, oRex, oInvalidRex, beq_self_eq_true, Bool.or_true, ↓reduceIte] at hok ⊢
+        refine ⟨?_, ?_, ?_, ?_⟩ <;> bv_decide
+    · have e : rb = r0 := by
+        obtain ⟨n1, n2, -⟩ := h
+        have e1 : (k0 == RegKind.gpb) = false := by simpa using n2
+        have e2 : (k0 == RegKind.gpbhi) = false := by simpa using n1
+        rw [← hrb]; simp [fix1, e1, e2]
+      exact regOkB_plain k0 _ _ p h (by rw [e])
+
 /-! ### immediates of 16 / 32 bits and sign-extended immediates -/
 
 /-- the encoder's immediate bytes are the little-endian bytes the monitor expects -/
